@@ -256,6 +256,30 @@ def stepLine (st : State) (w : List String) : State × String :=
   | ["dump"] => (st, dumpCfg c)
   | ["wf"] => (st, if c.wfb then "wf ok" else "wf FAIL")
   | ["lookup_all"] => (st, if lookupAllFrom 64 c.root then "lookup_all ok" else "lookup_all FAIL")
+  -- BEGIN C1011
+  -- Resource observations of C10/C11.  The harness prints the change in the number of open
+  -- descriptors since `fdmark`, and whether LeakSanitizer found an unreachable block; the model's
+  -- answers are what theorem C11_balanced proves for every read: nothing stays open, nothing leaks.
+  | ["fdmark"] => (st, "ok")
+  | ["fdcount"] => (st, "0")      -- C11_balanced: (ledger (read …).events).opened = [] for every read
+  | ["leakcheck"] => (st, "0")    -- C11_balanced: … .bufs = 0 (flex/bison/libc internals: LeakSanitizer only)
+  | ["read_stream_keep", s] =>
+    -- config_read on the caller's stream, which the caller then examines and closes itself: the
+    -- model replays the read's I/O events on the ledger (Read.lean) and checks that it is balanced
+    -- and that every event names an include file (C11_caller_stream_untouched)
+    match unhex s with
+    | some text =>
+      let r := read st.world c (.stream text) readFuel
+      let named := r.events.all fun e => match e.path with
+        | some p => r.cfg.filenames.contains p
+        | none => true
+      let res := match r.result with
+        | .accept => "1" | .abort => "0" | .exhausted => "0" | .crash => "crash"
+        | .echo b => s!"echo-{b}" | .outOfFuel => "out-of-fuel"
+      ({ st with cfg := r.cfg },
+       s!"{res} {showLog r.dtorLog} {if (ledger r.events).balanced && named then "stream-ok" else "stream-bad"}")
+    | none => (st, "bad-op")
+  -- END C1011
   | _ =>
     match parseOp w with
     | none => (st, "bad-op")
